@@ -485,6 +485,10 @@ class NetSim:
                 from nmea2000.message import NMEA2000Message
                 m = op["msg"]
                 msg = NMEA2000Message.from_json(m) if isinstance(m, str) else m
+                for f_ in getattr(msg, "fields", []) or []:
+                    # integers wider than 64 bits do not survive JSON text: the plan spells them "@int:<digits>"
+                    if isinstance(f_.value, str) and f_.value.startswith("@int:"):
+                        f_.value = int(f_.value[5:])
                 if op.get("timeout") is not None:
                     # the caller gives up after a while: the send() coroutine is cancelled wherever it is
                     self.fired["send_caller_timeout_armed"] += 1
